@@ -66,11 +66,17 @@ class ZONEINFO(TZProvider):
         except ValueError:
             # We might have a custom component in there.
             # see https://github.com/python/cpython/issues/120217
+            # dateutil does not accept property parameters like LANGUAGE either.
             tz = copy.deepcopy(tz)
             for sub in tz.walk():
                 for attr in list(sub.keys()):
                     if attr.lower().startswith("x-"):
                         sub.pop(attr)
+                        continue
+                    values = sub[attr]
+                    for value in values if isinstance(values, list) else [values]:
+                        if getattr(value, "params", None):
+                            value.params.clear()
             return self._create_timezone(tz)
 
     def _create_timezone(self, tz: cal.Timezone) -> tzinfo:
